@@ -14,7 +14,7 @@ import (
 // R-INPUT (C11): input bookkeeping.
 
 func init() {
-	register("R-INPUT", "input bookkeeping: (COUNTERS) the storage of NR and FNR is written only by nextLine (incremented by one, only after a successful scan), by assignment of the special variable, by setFile (FNR := 0) and by construction/reset; setFile is called on every path of nextLine that installs a new input; (GETLINE) in p.getline the branches for a command and for a named file never reach nextLine (so NR/FNR are untouched) and the plain form does; among the getline handlers only the plain form calls setLine, only the field form calls setField, and the variable/array forms call neither; (SENTINELS) next/nextfile are caught by the main loop (nextfile drops the scanner), break by the for-in handler, return values by the call handler, exit by executeAll, which never hands a control-flow sentinel to its caller and still runs END after an exit in BEGIN or the main loop; (RANGE) the range-pattern state is allocated once per run, lazily, and never discarded while records are being processed; (OPERANDS) the operand cursor starts at 1 and 'no file seen yet' is established by every successful setExecuteConfig, independently of resetCore; (EXIT) exit with a value stores the status before raising the exit sentinel and executeAll returns the stored status", ruleInput)
+	register("R-INPUT", "input bookkeeping: (COUNTERS) every write of the storage of NR and FNR is, by the value written, an increment by one (only after a successful Scan in the same function), a restart at zero (NR never in code the record-taking function can reach; FNR in the functions that install a new input) or the script's own assignment; every installation of a new main input is followed by the call that restarts FNR; (GETLINE) in p.getline the branches for a command and for a named file never reach nextLine (so NR/FNR are untouched) and the plain form does; among the getline handlers only the plain form calls setLine, only the field form calls setField, and the variable/array forms call neither; (SENTINELS) next/nextfile are caught by the main loop (on the edge where the error equals the nextfile sentinel the scanner is set to nil), break by the for-in handler, return values by the call handler, exit by executeAll, which never hands a control-flow sentinel to its caller and still runs END after an exit in BEGIN or the main loop; (RANGE) the range-pattern state is allocated once per run, lazily, and never discarded while records are being processed; (OPERANDS) the operand cursor starts at 1 and 'no file seen yet' is established by every successful setExecuteConfig, independently of resetCore; (EXIT) exit with a value stores the status before raising the exit sentinel and executeAll returns the stored status", ruleInput)
 }
 
 func ruleInput(c *Ctx) {
